@@ -201,6 +201,9 @@ func c19targets() []c19target {
 		{name: "ok/value", url: u + "/value", status: []int{200}, result: `{"s":"<a&b> é","n":[1,2.5,null,true],"o":{}}`},
 		{name: "ok/strict", url: u + "/strict?x=41", status: []int{200}, result: `42`},
 		{name: "ok/post", method: "POST", url: u + "/echo?x=1", status: []int{200}, result: `{"x":1}`},
+		{name: "ok/number-beyond-float64", url: u + "/echo?x=-" + strings.Repeat("7", 400) + "&y=1" + strings.Repeat("0", 310) + ".5", status: []int{200},
+			result: `{"x":"-` + strings.Repeat("7", 400) + `","y":"1` + strings.Repeat("0", 310) + `.5"}`},
+		{name: "ok/number-largest-float64", url: u + "/echo?x=1" + strings.Repeat("0", 308), status: []int{200}, result: `{"x":1e+308}`},
 		{name: "400/missing-dquote", url: u + "/echo?x=%22abc", status: []int{400}},
 		{name: "400/bad-json-string", url: u + "/echo?x=%22a%5Cxb%22", status: []int{400}},
 		{name: "400/bad-base64", url: u + "/echo?x='a-b*'", status: []int{400}},
@@ -357,6 +360,12 @@ func c19casesG(e vt.Env, yield func(vt.Case) bool) bool {
 			for n := 0; n < 60 && !c.Failed(); n++ {
 				_, v := c19grammar(rng)
 				c19getQ(c, t, g, c19mkInput(v, n*13+g0))
+			}
+			rngH := e.Rand("C19/huge/" + id)
+			for n := 0; n < 8 && !c.Failed(); n++ {
+				_, v := c19huge(rngH)
+				c19getQ(c, t, g, c19mkInput(v, n*7+g0))
+				t["getter_huge_numbers"]++
 			}
 			if err := g.Close(); err != nil {
 				c.Failf("Getter.Close: %v", err)
